@@ -132,7 +132,9 @@ func monC04(c *ctx, w *hWorld, pre *worldSnap, sr *stepResult, hist []string) {
 			// for the four functions that only go through addToESDTBalance: flagged return-after-error they may debit a frozen entry, but a
 			// zero balance is kept as an entry that carries the flag (C03_fungible_functions_keep_frozen), so the account STAYS frozen
 			keepsFlag := cs.RAE && !(isSC && (cs.Fn == "ESDTWipe" || cs.Fn == "ESDTUnFreeze")) &&
-				(cs.Fn == "ESDTTransfer" || cs.Fn == "ESDTBurn" || cs.Fn == "ESDTLocalMint" || cs.Fn == "ESDTLocalBurn")
+				(cs.Fn == "ESDTTransfer" || cs.Fn == "ESDTBurn" || cs.Fn == "ESDTLocalMint" || cs.Fn == "ESDTLocalBurn" ||
+					// the fungible branch of the multi-transfer goes through the same helper on both sides
+					cs.Fn == "MultiESDTNFTTransfer" && tkIsFungibleEntry(t))
 			if st.frozen[k] && !keepsFlag {
 				nt := tkEntry(post, addr, suf)
 				st.frozen[k] = nt != nil && tkFrozenProps(nt.Properties)
